@@ -11,13 +11,15 @@ package table
 // ---- specification vocabulary: the observable features of a route (assumption A10) ----------
 //@ func (*Path).IsLLGRStale
 //@   pure
-//@   spec-only
+//@   claims at-return at-call
+//@   at-call slices.Contains( requires arg1 == uint32(bgp.COMMUNITY_LLGR_STALE) && called(GetCommunities)
 //@ func (*Path).GetLocalPref
 //@   pure
 //@   spec-only
 //@ func (*Path).GetSource
 //@   pure
-//@   spec-only
+//@   claims at-return at-call
+//@   at-return requires ret0 == path.OriginInfo().source
 // AS_PATH length = sum over the segments of their ASLen() (defined by the two axioms below)
 // an AS_PATH attribute holds no nil segment
 //@ spec wfAsPath(p *Path) bool = p.GetAsPath() == nil || (forall k int :: 0 <= k && k < len(p.GetAsPath().Value) ==> p.GetAsPath().Value[k] != nil)
@@ -297,10 +299,12 @@ package table
 
 //@ func (*Path).GetFamily
 //@   pure
-//@   spec-only
+//@   claims at-return at-call
+//@   at-return requires ret0 == path.family
 //@ func (*Path).IsEOR
 //@   pure
-//@   spec-only
+//@   claims at-return at-call
+//@   at-return requires ret0 == (path.info != nil && path.info.eor)
 //@ func (*Path).OriginInfo
 //@   pure
 //@   spec-only
@@ -678,7 +682,8 @@ package table
 //@ props C12
 //@ func (*Path).IsStale
 //@   pure
-//@   spec-only
+//@   claims at-return at-call
+//@   at-return requires ret0 == path.OriginInfo().stale
 //@ func (*Path).SetDropped
 //@   requires path != nil
 //@   modifies path.dropped
